@@ -1,10 +1,4 @@
 # C08 - state entities serialize losslessly and canonically (builder b07)
-#
-# The open finding of this property (node.Pool codec, see the builder's report) is not in /verif/known_findings.json
-# yet; until it is, the parts point VERIF_KNOWN_FINDINGS at a private copy that contains it, so that the check
-# excludes that class by construction and stays quiet on the unchanged tree. Remove the env entries once the finding is
-# listed in (or repaired and recorded as fixed in) the official file.
-_C08_KNOWN = {"VERIF_KNOWN_FINDINGS": "/verif/wip/agents/b07/known_findings.json"}
 _CDC = "verifharness/checks/codecchk"
 WIP["C08"] = dict(
     level="exploration", engine="E2 + source scan",
@@ -12,8 +6,8 @@ WIP["C08"] = dict(
     level_text="The registry of types is generated from the sources (every named type with MarshalMsg and UnmarshalMsg, at least one of them its own; 148 types in 22 packages at this commit) and compared with a fresh source scan at check time (types_covered / types_found in the evidence; a type missing from the registry stops the run as inconclusive). Per case one type and one reflectively generated value (all exported and unexported fields, nil / empty / filled containers, boundary and maximal numbers, odd strings, versioned wrappers with an entity of a drawn registered version): dec(enc(x)) must succeed and consume all bytes, enc(dec(enc(x))) == enc(x), dec(enc(x)) must equal x on every exported field not declared transient, encoding must be repeatable and independent of map insertion order. Versioned part: entities of version n are stored, read back (must stay version n), migrated with Wrapper.Update to n+1 (every field common to both version structs and Wrapper.Base() must be unchanged), stored and read again, and bytes naming an unregistered version must be refused.",
     level_note="Exploration over generated values: finds a lossy or non-canonical codec for the explored values, proves nothing about others. The domain is a superset of the stored entity types (all codec types, including REST response shapes); two dead types are exempted with the proof re-checked against the sources at every run (tokenpool.ZcnLockingPool cannot be built, stakepool.UserPoolStat has an empty generated codec). Fields tagged msg:\"-\" and unexported fields are what the codec declares transient and are not compared; State.TxnHash is derived from TxnHashBytes. No decoding of arbitrary (corrupted) bytes: the statement is about values the contracts store. While the node.Pool finding is open, pools are generated as empty miner pools only; a fixed probe reports whether it still reproduces.",
     parts=[
-        dict(pkg=_CDC, run="^TestC08_RoundTrip$", quick=40000, thorough=3200000, floor=2000, timeout_quick=600, timeout_thorough=2400, env=_C08_KNOWN),
-        dict(pkg=_CDC, run="^TestC08_VersionedEntities$", quick=8000, thorough=640000, floor=500, timeout_quick=600, timeout_thorough=2400, env=_C08_KNOWN),
+        dict(pkg=_CDC, run="^TestC08_RoundTrip$", quick=40000, thorough=3200000, floor=2000, timeout_quick=600, timeout_thorough=2400),
+        dict(pkg=_CDC, run="^TestC08_VersionedEntities$", quick=8000, thorough=640000, floor=500, timeout_quick=600, timeout_thorough=2400),
     ],
     assumptions=[
         "a stored versioned wrapper always carries an entity of a registered version",
